@@ -12,7 +12,8 @@
    over ([orders]); the theorems hold for all of them. *)
 From Coq Require Import List.
 Import ListNotations.
-From Oras Require Import Model.OciIndex Proofs.OciIndex Model.TarFS Proofs.TarFS.
+From Oras Require Import Base.Prelude Generated.GC08 Model.OciIndex Proofs.OciIndex Model.TarFS Proofs.TarFS Model.OciConc Proofs.OciConc.
+Local Open Scope nat_scope.
 
 (* AutoSaveIndex on: after EVERY history of Push/Tag/Untag/Delete/GC/SaveIndex/read-write
    reopen (any AutoGC setting, any map orders), the store reopened from the directory
@@ -162,3 +163,74 @@ Example C08_hypotheses_satisfiable :
   obs_preds 3 ex_succs s 1 = [2] /\ obs_preds 3 ex_succs s 0 = [1] /\
   obs_preds 3 ex_succs (reopen 3 ex_mf ex_succs s) 0 = [1] /\ disk_valid s = true.
 Proof. exact example_history. Qed.
+
+
+(* ================= concurrent operations (Model/OciConc.v) =================
+   The sequential theorems above speak of whole operations; the store runs them under a
+   RWMutex (Push/Tag/Untag/SaveIndex shared, Delete/GC exclusive) with saveIndex serialised by
+   indexLock.  The two transition systems of Model/OciConc.v interleave the atomic steps; the
+   ORDER of the steps inside saveIndex / Tag / Delete / Push is read from the Go sources by
+   the translator (Generated/GC08.v, kind callseq). *)
+
+(* the programs read from the sources are the well-locked ones, and every public operation
+   takes the store lock first *)
+Theorem C08_locks_as_in_the_sources :
+  save_prog = [SLock; SSnap; SWrite; SUnlock] /\ tag_prog = [GRLock; GExists; GReg; GRUnlock] /\
+  del_prog = [DWLock; DUntag; DRemove; DWUnlock] /\ push_prog = [PRLock; PCreate; PRUnlock] /\
+  hd [] c08_calls_Untag = b "s.sync.RLock" /\ hd [] c08_calls_SaveIndex = b "s.sync.RLock" /\
+  hd [] c08_calls_Push = b "s.sync.RLock" /\ hd [] c08_calls_Tag = b "s.sync.RLock" /\
+  hd [] c08_calls_Delete = b "s.sync.Lock" /\ hd [] c08_calls_GC = b "s.sync.Lock".
+Proof. exact (conj save_prog_good (conj tag_prog_good (conj del_prog_good (conj push_prog_good locks_first)))). Qed.
+Print Assumptions C08_locks_as_in_the_sources.
+
+(* any number of threads, each running any list of index-saving operations (registrations in
+   the resolver followed by saveIndex as in the sources), under EVERY schedule: once all have
+   returned, index.json is saveIndex of the live resolver map, i.e. its projection *)
+Theorem C08_concurrent_saves_index_current :
+  forall (s0 : sstate rmap (list desc)) (sched : list (nat * (list nat * list nat))),
+    let proj := fun (c : list nat * list nat) (v : rmap) => save_index (fst c) (snd c) v in
+    s_init rmap (list desc) (list nat * list nat) proj save_prog s0 ->
+    let s := run_sched rmap (list desc) (list nat * list nat) proj sched s0 in
+    quiescent rmap (list desc) s ->
+    (exists c1 c2, disk _ _ s = save_index c1 c2 (live _ _ s)) /\
+    (IxInv (live _ _ s) -> DiskOK (disk _ _ s) (live _ _ s)).
+Proof. exact concurrent_saves_index_current. Qed.
+Print Assumptions C08_concurrent_saves_index_current.
+
+(* any number of Tag / Delete / Push calls on the same content under every schedule: once all
+   have returned, a registered reference points to content that exists *)
+Theorem C08_concurrent_tag_delete_valid :
+  forall (s0 : gstate) (sched : list nat),
+    g_init tag_prog del_prog push_prog s0 ->
+    let s := g_run sched s0 in g_quiescent s -> g_valid s.
+Proof. exact concurrent_tag_delete_valid. Qed.
+Print Assumptions C08_concurrent_tag_delete_valid.
+
+(* the snapshot taken before indexLock (call order Map, Lock, write): a schedule of two
+   operations after which index.json lacks a live reference *)
+Theorem C08_concurrent_refuted_snapshot_before_lock :
+  save_prog_of [b "s.tagResolver.Map"; b "s.indexLock.Lock"; b "s.writeIndexFile"] = bad_save /\
+  s_init (list nat) (list nat) (list nat) (fun _ v => v) bad_save ex_s0 /\
+  (let s := run_sched (list nat) (list nat) (list nat) (fun _ v => v) ex_sched ex_s0 in
+   quiescent (list nat) (list nat) s /\ live _ _ s = [2; 1] /\ disk _ _ s = [1])%nat.
+Proof. exact (conj bad_order_program save_quiescent_refuted_snapshot_before_lock). Qed.
+Print Assumptions C08_concurrent_refuted_snapshot_before_lock.
+
+(* Exists checked before the read lock (call order validate, Exists, RLock, tag): a Tag racing a
+   Delete leaves a reference to content that is gone *)
+Theorem C08_concurrent_refuted_exists_before_lock :
+  tag_prog_of [b "validateReference"; b "s.storage.Exists"; b "s.sync.RLock"; b "s.graph.Index"; b "s.tag"] = bad_tag /\
+  g_init bad_tag good_del good_push exg_s0 /\
+  (let s := g_run [0; 1; 1; 1; 1; 0; 0; 0]%nat exg_s0 in
+   g_quiescent s /\ refs s = 1%nat /\ blob s = false).
+Proof. exact (conj bad_tag_program tag_delete_refuted_exists_before_lock). Qed.
+Print Assumptions C08_concurrent_refuted_exists_before_lock.
+
+Example C08_concurrent_hypotheses_satisfiable :
+  let proj := fun (c : list nat * list nat) (v : rmap) => save_index (fst c) (snd c) v in
+  s_init rmap (list desc) (list nat * list nat) proj save_prog exc_s0 /\
+  (let s := run_sched rmap (list desc) _ proj
+              (map (fun i => (i, ([1], [0])%nat)) [0; 1; 2; 0; 2; 1; 1; 0; 2; 2; 2; 1; 0; 0; 1; 0; 0; 1; 1]%nat) exc_s0 in
+   live _ _ s = [(RTag 0, plain 1); (RDig 1, plain 1)] /\
+   disk _ _ s = [mkDesc 1 0 (Some (RTag 0))] /\ ilock _ _ s = None).
+Proof. exact concurrent_example. Qed.
